@@ -10,6 +10,7 @@ ENGINES = {
     "C06": "engines.c06",
     "C07": "engines.c07",
     "C09": "engines.c09",
+    "C10": "engines.c10",
     "C11": "engines.c11",
     "C12": "engines.c12",
     "C13": "engines.c13",
